@@ -23,7 +23,23 @@ pub trait ExBorrowMut<Borrowed: ?Sized>: core::borrow::Borrow<Borrowed> {
     fn borrow_mut(&mut self) -> &mut Borrowed;
 }
 pub trait Exfiltrator { type Output; }
-pub trait AsRawFd {}
+pub trait AsRawFd {
+    spec fn fd(&self) -> i32;
+    fn as_raw_fd(&self) -> (r: i32) ensures r == self.fd();
+}
+/// libc stand-in for `flush`: one ghost event per `recv` call (assumed contract: the call itself; the kernel's behaviour -
+/// MSG_DONTWAIT never blocks, a result <= 0 means "nothing more to read now" or an error - is ledger A3)
+pub struct RecvEv { pub fd: i32, pub len: usize, pub flags: i32, pub ret: isize }
+pub mod libc {
+    use super::*;
+    #[verifier::external_body] pub struct c_void { _p: u8 }
+    pub const MSG_DONTWAIT: i32 = 0x40;
+    #[verifier::external_body]
+    pub unsafe fn recv(fd: i32, buf: *mut c_void, len: usize, flags: i32, tr: &mut Ghost<Seq<RecvEv>>) -> (r: isize)
+        ensures final(tr)@ == old(tr)@.push(RecvEv { fd, len, flags, ret: r })
+    { unimplemented!() }
+}
+pub assume_specification<T> [<[T]>::as_mut_ptr] (_0: &mut [T]) -> *mut T;
 pub enum CbAns { False, True, Err }
 pub enum PEv<O> { Closed(bool), Next(Option<O>), Cb(CbAns), Fresh }
 /// ghost state of one poll_signal call: the trace of what it did, and whether any load of the closed flag returned true
